@@ -214,8 +214,9 @@ Fixpoint monitor_from (c : cfg) (m : mon) (pos : nat) (tr : list (op * out)) : o
 Definition monitor (c : cfg) (tr : list (op * out)) : option (nat * nat) := monitor_from c (minit c) O tr.
 
 (* configurations the headers accept / the property speaks about: distinct CIDs, the signaling channel is
-   the real one (CID 5, MTU 23), sizes fit the 16 bit length field *)
+   the real one (CID 5, MTU 23), sizes fit the 16 bit length field, channel ids are uint16_t *)
 Definition wf (c : cfg) : Prop :=
   NoDup (map cid (chans c)) /\
   Forall (fun k => kd k = KSig -> k = sig_chan) (chans c) /\
-  max_mtu c + 4 < 65536.
+  max_mtu c + 4 < 65536 /\
+  Forall (fun k => cid k < 65536) (chans c).
